@@ -32,6 +32,9 @@ EXPLANATION = ("E3: z3 string/regex queries over the live inline-parameter patte
                "E2c: CrossHair choice-point twins of shorthand vs long-form definitions under the same symbolic history")
 
 
+OWN_THOROUGH = True
+
+
 def _classes():
     alts = P.REGEX_INLINE_PARAM_VARIATIONS
     ANY = z3.Star(anychar())
